@@ -129,6 +129,7 @@ def showMdKey : MdKeyResult → String
 
 def showFault : Fault → String
   | .indexOutOfRange => "index" | .sliceBounds => "slice" | .closeOfClosedChannel => "close" | .outOfFuel => "fuel"
+  | .nilMapWrite => "nilmap" | .nilDeref => "nilderef" | .typeAssertion => "typeassert" | .divideByZero => "div0"
 
 def b01 (b : Bool) : String := if b then "1" else "0"
 
